@@ -137,7 +137,7 @@ let () =
      while true do
        let line = input_line ic in
        let line = String.trim line in
-       if line = "" then ()
+       if line = "" || line.[0] = '#' then ()
        else if String.length line >= 2 && String.sub line 0 2 = "H " then begin
          incr hist; step_no := 0; skipping := false;
          (try cur := Some (init_world (split_ws (String.sub line 2 (String.length line - 2))))
